@@ -17,6 +17,11 @@ impl ArgVec {
     pub fn new(this: Option<ObjRef>, args: Vec<Val>, extra: Vec<Val>) -> Self {
         Self { this, args, extra }
     }
+
+    #[cfg(resynth_verif)]
+    pub fn verif_parts(&self) -> (&[Val], &[Val]) {
+        (&self.args, &self.extra)
+    }
 }
 
 #[derive(Debug)]
